@@ -132,3 +132,96 @@ MUTANTS = [
     M("surprise-flag-last-share-wins", "src/allmydata/mutable/publish.py",
       "                surprised = True\n\n        if surprised:", "                surprised = (checkstring != self._checkstring)\n\n        if surprised:", "C47.9"),
 ]
+
+SRVF = "src/allmydata/storage/server.py"
+
+_SRV_WRITE_OLD = '''        if testv_is_good:
+            # now apply the write vectors
+            remaining_shares = self._evaluate_write_vectors(
+                bucketdir,
+                secrets,
+                test_and_write_vectors,
+                shares,
+            )
+            if renew_leases:
+                lease_info = self._make_lease_info(renew_secret, cancel_secret)
+                self._add_or_renew_leases(remaining_shares.values(), lease_info)
+'''
+_SRV_WRITE_EARLY_RETURN = '''        if not testv_is_good:
+            self.add_latency("writev", self._clock.seconds() - start)
+            return (False, read_data)
+        remaining_shares = self._evaluate_write_vectors(
+            bucketdir,
+            secrets,
+            test_and_write_vectors,
+            shares,
+        )
+        if renew_leases:
+            lease_info = self._make_lease_info(renew_secret, cancel_secret)
+            self._add_or_renew_leases(remaining_shares.values(), lease_info)
+'''
+
+_PUSH_GATE = "        if num_shnums < self.required_shares or self.surprised:\n            return self._failure()\n"
+
+MUTANTS += [
+    # ---- C47.10 (gap review: `return self._failure()` -> `return None` survived the sweep)
+    M("push-gives-up-silently", PUB, _PUSH_GATE,
+      "        if num_shnums < self.required_shares or self.surprised:\n            return None\n", "C47.10"),
+    M("push-too-few-writers-only-logged", PUB, _PUSH_GATE,
+      "        if num_shnums < self.required_shares:\n            self.log(\"not enough writers left\")\n            return\n"
+      "        if self.surprised:\n            return self._failure()\n", "C47.10"),
+    M("benign-push-failure-then-bare-return", PUB, _PUSH_GATE,
+      "        if num_shnums < self.required_shares or self.surprised:\n            self._failure()\n            return\n", None),
+    M("benign-push-two-separate-checks", PUB, _PUSH_GATE,
+      "        if self.surprised:\n            return self._failure()\n"
+      "        if self.required_shares > num_shnums:\n            return self._failure()\n", None),
+    # ---- C47.11 (gap review: add(shnum, writer) -> add(writer, shnum) survived)
+    M("writers-keyed-by-writer", PUB,
+      "            self.writers.add(shnum, writer)\n            writer.server = server\n"
+      "            known_shares = self._servermap.get_known_shares()\n            if (server, shnum) in known_shares:",
+      "            self.writers.add(writer, shnum)\n            writer.server = server\n"
+      "            known_shares = self._servermap.get_known_shares()\n            if (server, shnum) in known_shares:", "C47.11"),
+    M("writers-keyed-by-server", PUB,
+      "            self.writers.add(shnum, writer)\n            writer.server = server\n"
+      "            known_shares = self._servermap.get_known_shares()\n            assert (server, shnum) in known_shares",
+      "            self.writers.add(server, writer)\n            writer.server = server\n"
+      "            known_shares = self._servermap.get_known_shares()\n            assert (server, shnum) in known_shares", "C47.11"),
+    M("proxy-share-number-from-wrong-parameter", LAY,
+      "        self.shnum = shnum\n        self._storage_server = storage_server\n        self._storage_index = storage_index\n"
+      "        self._secrets = secrets\n",
+      "        self.shnum = seqnum\n        self._storage_server = storage_server\n        self._storage_index = storage_index\n"
+      "        self._secrets = secrets\n", "C47.11"),
+    M("benign-writer-filed-through-locals", PUB,
+      "            self.writers.add(shnum, writer)\n            writer.server = server\n"
+      "            known_shares = self._servermap.get_known_shares()\n            if (server, shnum) in known_shares:",
+      "            w = writer\n            sn = shnum\n            self.writers.add(sn, w)\n            writer.server = server\n"
+      "            known_shares = self._servermap.get_known_shares()\n            if (server, shnum) in known_shares:", None),
+    # ---- C47.5 (gap review: `return self.done_deferred` -> `return None` survived)
+    M("publish-returns-push-result", PUB,
+      "        self._state = PUSHING_BLOCKS_STATE\n        self._push()\n\n        return self.done_deferred\n\n    def _get_some_writer",
+      "        self._state = PUSHING_BLOCKS_STATE\n        return self._push()\n\n    def _get_some_writer", "C47.5"),
+    M("benign-result-deferred-through-local", PUB,
+      "        self._state = PUSHING_BLOCKS_STATE\n        self._push()\n\n        return self.done_deferred\n\n    def _get_some_writer",
+      "        self._state = PUSHING_BLOCKS_STATE\n        result = self.done_deferred\n        self._push()\n        return result\n\n"
+      "    def _get_some_writer", None),
+    # ---- C47.12 (gap review: `if testv_is_good:` negated survived - the server acknowledges without storing)
+    M("server-acks-without-writing", SRVF,
+      "        if testv_is_good:\n            # now apply the write vectors",
+      "        if not testv_is_good:\n            # now apply the write vectors", "C47.12"),
+    M("server-dry-run-for-lease-renewal", SRVF,
+      "        if testv_is_good:\n            # now apply the write vectors",
+      "        if testv_is_good and renew_leases:\n            # now apply the write vectors", "C47.12"),
+    M("benign-server-refusal-returns-early", SRVF, _SRV_WRITE_OLD, _SRV_WRITE_EARLY_RETURN, None),
+    M("benign-server-verdict-through-bool", SRVF,
+      "        if testv_is_good:\n            # now apply the write vectors",
+      "        accepted = bool(testv_is_good)\n        if accepted:\n            # now apply the write vectors", None),
+    # ---- C47.9: rules adopted from C12 in the gap review (test vectors, unbound locals, surprise set)
+    M("sdmf-proxy-sends-empty-request", LAY,
+      "        tw_vectors[self.shnum] = (self._testvs, datavs, None)\n        return self._storage_server.slot_testv_and_readv_and_writev(",
+      "        return self._storage_server.slot_testv_and_readv_and_writev(", "C47.9"),
+    M("answer-handler-unbound-local", PUB,
+      "        surprised = False\n        for shnum in surprise_shares:", "        for shnum in surprise_shares:", "C47.9"),
+    M("surprise-set-other-servers", PUB,
+      "            shares.extend([x.shnum for x in writers if x.server == server])",
+      "            shares.extend([x.shnum for x in writers if x.server != server])", "C47.9"),
+]
